@@ -854,6 +854,14 @@ def move_before_loop(source: str) -> str:
             if core.has_side_effect(node.value):
                 continue
 
+            # global x and nonlocal x must stay in front of the assignment to x
+            if any(
+                name.id in declaration.names
+                for declaration in core.walk(scope, (ast.Global, ast.Nonlocal))
+                for name in parsing.assignment_targets(node)
+            ):
+                continue
+
             # x[key] = value and x.attr = value change x. That has to happen in every iteration.
             targets = node.targets if isinstance(node, ast.Assign) else [node.target]
             if not all(isinstance(child, name_targets) for t in targets for child in ast.walk(t)):
